@@ -47,6 +47,8 @@ impl StatementBatch {
                     if c.on.is_none() || &err.ecode == c.on.as_ref().unwrap() {
                         task.set_data_with(|data| data.set(consts::IS_CATCH_PROCESSED, true));
                         task.set_state(TaskState::Running);
+                        // keep the stored row in step with the revived task
+                        ctx.runtime.cache().upsert(&task)?;
 
                         let children = task.node().children_in(NodeOutputKind::Catch, c.on.clone());
 
@@ -82,6 +84,8 @@ impl StatementBatch {
                 let on = TimeoutLimit::parse(&t.on)?;
                 if millis >= on.as_secs() * 1000 {
                     task.set_data_with(|data| data.set(&key, true));
+                    // the once-flag must survive a reload
+                    ctx.runtime.cache().upsert(&task)?;
                     for node in &task
                         .node()
                         .children_in(NodeOutputKind::Timeout, Some(t.on.clone()))
